@@ -68,6 +68,8 @@ pub struct Ep {
     pub store_puts: bool,
     /// Entries appended verbatim to every node list this endpoint returns.
     pub extra_listed: Vec<(Id20, SocketAddrV4)>,
+    /// Lists its nodes farthest first (BEP5 does not prescribe an order).
+    pub farthest_first: bool,
 }
 
 impl Ep {
@@ -94,6 +96,7 @@ impl Ep {
             queries: vec![],
             store_puts: true,
             extra_listed: vec![],
+            farthest_first: false,
         }
     }
 }
@@ -143,6 +146,9 @@ impl EpNet {
         v.sort();
         v.truncate(me.k);
         let mut out: Vec<(Id20, SocketAddrV4)> = v.into_iter().map(|(_, id, a)| (id, a)).collect();
+        if me.farthest_first {
+            out.reverse();
+        }
         out.extend(me.extra_listed.iter().cloned());
         out
     }
